@@ -81,7 +81,7 @@ def gen_sizes(rng, maxn):
 def gen_helper_cases(ctx):
     rng = ctx.rng
     cases = []
-    n = ctx.pick(36, 420)
+    n = ctx.pick(60, 420)
     maxn = ctx.pick(8, 20)
     for i in range(n):
         nseq, nsub = gen_sizes(rng, maxn)
@@ -100,7 +100,7 @@ def gen_helper_cases(ctx):
 def gen_lowpass_cases(ctx):
     rng = ctx.rng
     cases = []
-    n = ctx.pick(30, 360)
+    n = ctx.pick(60, 360)
     for i in range(n):
         d = rng.choice([1, 1, 2, 2, 3])
         maxn = {1: ctx.pick(8, 20), 2: ctx.pick(6, 10), 3: ctx.pick(4, 6)}[d]
@@ -335,7 +335,7 @@ def run(ctx):
         if near:
             ctx.count('skipped: no-call probability within rounding of sim_threshold'); continue
         lexprs.append((c['id'], lexpr(c, r))); lmeta[c['id']] = c
-    lres = ctx.coq_cases('lowpass', header, lexprs, '(lcheck %s)' % q(TOL_LP), 'rel 1e-9 of the largest entry', shard=ctx.pick(3, 8), timeout=2400)
+    lres = ctx.coq_cases('lowpass', header, lexprs, '(lcheck %s)' % q(TOL_LP), 'rel 1e-9 of the largest entry', shard=ctx.pick(3, 4), timeout=2400)
     nbad = 0
     for n, c in lmeta.items():
         rr = lres.get(n)
